@@ -35,7 +35,7 @@ pub fn blocks(thorough: bool) -> Vec<Block> {
         b.push(Block::new(Universe::new("U_adv(A_cls)", A_CLS, 2, 2, true), class_cfgs(&[0, I, X, G, E, R, I | R, X | G | E]), "64 class subsets x {{}, i, x, g, e, r, i+r, x+g+e}"));
         b.push(Block::new(Universe::new("U_adv(A_cls)", A_CLS, 3, 2, true), class_cfgs(&[0]), "64 class subsets"));
         b.push(Block::new(Universe::new("U_adv(A_cls)", A_CLS, 3, 1, false), class_cfgs(&[R, I, X | E]), "64 class subsets x {r, i, x+e}"));
-        b.push(Block::new(Universe::new("U_adv(A_cls)", A_CLS, 2, 3, true), class_cfgs(&[0, I]), "64 class subsets x {{}, i}"));
+        b.push(Block::new(Universe::new("U_adv(A_cls)", A_CLS, 2, 3, true), class_cfgs(&[0]), "64 class subsets"));
         b.push(Block::new(Universe::new("U_adv(A_cls+meta)", &mix, 2, 2, true), class_cfgs(&[0, X, G, E, I | X, R | X]), "64 class subsets x {{}, x, g, e, i+x, r+x}"));
         b.push(Block::new(Universe::new("U_a1{a,1}", &["a", "1"], 3, 0, false), class_cfgs(&[0, R]), "64 class subsets x {{}, r}"));
         b.push(Block::new(Universe::new("U_ab3{a,b}", &["a", "b"], 3, 0, false), class_cfgs(&[0]), "64 class subsets"));
